@@ -724,7 +724,7 @@ def gen_C16_focused(rng, tier, seed):
         n[0] += 1
         return "t%d" % n[0]
 
-    qkind = rng.choice(["we_pages", "we_pagelinks", "we_pagelinks", "network", "network_slow", "network_blocking", "we_outlinks", "we_inlinks", "we_children", "we_most_linked", "we_crawled_pages"])
+    qkind = rng.choice(["we_pages", "we_pagelinks", "we_pagelinks", "we_pagelinks", "we_pagelinks", "network", "network_slow", "network_blocking", "we_outlinks", "we_inlinks", "we_children", "we_most_linked", "we_crawled_pages"])
     q = {"id": tid(), "kind": qkind, "ref": O.enc(site)}
     if qkind == "we_pagelinks":
         q["combo"] = rng.choice([[False, True, False], [False, False, True], [True, True, True]])
@@ -761,7 +761,7 @@ def gen_C16_focused(rng, tier, seed):
 
 
 def gen_C16(rng, tier, seed):
-    if rng.random() < 0.35:
+    if rng.random() < 0.5:
         return gen_C16_focused(rng, tier, seed)
     g = Gen(rng, "C16", tier, allow_restart=False, nops=rng.choice([0, 2, 4, 6, 10, 16]))
     g.pool_size = min(g.pool_size, 16)
